@@ -1,7 +1,296 @@
-//! C02 — not built yet.
+//! C02 — commit and rollback are all-or-nothing.
+//!
+//! One transaction T (1–15 mutations of every kind, through the direct session API and through GQL / Cypher /
+//! SPARQL text) over a generated starting graph, ended by commit / rollback / a commit that is refused (forced
+//! through hook H5: a second transaction registers a conflicting write with the transaction manager and commits
+//! first) / dropping the session. Then the *observable-state battery* — every read kind of C01 for every label,
+//! every id ever handed out, every node's neighbour lists and degrees, index lookups with and without a property
+//! index, SPARQL — is taken by a fresh session, outside a transaction and inside a new transaction begun
+//! afterwards, and compared with the reference model: after rollback / refused commit / drop the state before
+//! `begin`; after a successful commit the state after T.
+//!
+//! The model, the conflict bookkeeping and the tolerance classes are those of C01 (`props::c01::World`): on the
+//! pinned tree rollback only removes created versions, so SET/REMOVE/label/DELETE effects of a rolled-back T and
+//! its adjacency entries survive (known findings, keyed by the class of the write that explains the difference).
+//! Create-only transactions, every committed transaction, and every entity T did not touch are strict.
 
-use crate::driver::Run;
+use grafeo_common::types::{NodeId, Value};
+use proptest::prelude::*;
+use serde::{Deserialize, Serialize};
+
+use crate::driver::{CaseResult, Failure, Run, fail, guard, hash_dbg, ok_with_known};
+use crate::props::c01::{self, Ent, N_READ_KINDS, Op, ReadVerdict, TxStatus, World};
+
+#[derive(Clone, Debug, Serialize, Deserialize)]
+pub enum End {
+    Commit,
+    Rollback,
+    /// commit refused with a write conflict forced through the transaction manager (hook H5)
+    FailedCommit,
+    /// the session is dropped with the transaction open
+    DropSession,
+}
+
+#[derive(Clone, Debug, Serialize, Deserialize)]
+pub struct TxCase {
+    pub setup: Vec<Op>,
+    pub body: Vec<Op>,
+    pub end: End,
+    /// create a property index on "x" before the transaction
+    pub index_x: bool,
+    pub create_only: bool,
+}
+
+fn setup_op() -> impl Strategy<Value = Op> {
+    prop_oneof![
+        4 => (0u8..3, 0u8..4, 0u8..3).prop_map(|(label, x, via)| Op::CreateNode { s: 1, label, x, via }),
+        2 => (any::<u16>(), any::<u16>(), 0u8..2).prop_map(|(a, b, ty)| Op::CreateEdge { s: 1, a, b, ty }),
+        1 => (any::<u16>(), 0u8..2, 0u8..4).prop_map(|(n, key, val)| Op::SetProp { s: 1, n, key, val }),
+        1 => (any::<u16>(), 0u8..3).prop_map(|(n, label)| Op::AddLabel { s: 1, n, label }),
+        1 => (0u8..c01::N_TRIPLES).prop_map(|t| Op::RdfInsert { s: 1, t }),
+    ]
+}
+
+fn body_op(create_only: bool) -> BoxedStrategy<Op> {
+    if create_only {
+        prop_oneof![
+            4 => (0u8..3, 0u8..4, 0u8..3).prop_map(|(label, x, via)| Op::CreateNode { s: 0, label, x, via }),
+            3 => (any::<u16>(), any::<u16>(), 0u8..2).prop_map(|(a, b, ty)| Op::CreateEdge { s: 0, a, b, ty }),
+            1 => (0u8..3, 0u8..4).prop_map(|(label, x)| Op::Merge { s: 0, label, x }),
+            1 => (0u8..c01::N_TRIPLES).prop_map(|t| Op::RdfInsert { s: 0, t }),
+            1 => (0u8..c01::N_TRIPLES).prop_map(|t| Op::RdfDelete { s: 0, t }),
+            2 => (0u8..N_READ_KINDS, any::<u16>(), 0u8..4).prop_map(|(kind, n, arg)| Op::Read { s: 0, kind, n, arg }),
+        ]
+        .boxed()
+    } else {
+        prop_oneof![
+            4 => (0u8..3, 0u8..4, 0u8..3).prop_map(|(label, x, via)| Op::CreateNode { s: 0, label, x, via }),
+            3 => (any::<u16>(), any::<u16>(), 0u8..2).prop_map(|(a, b, ty)| Op::CreateEdge { s: 0, a, b, ty }),
+            3 => (any::<u16>(), 0u8..2, 0u8..4).prop_map(|(n, key, val)| Op::SetProp { s: 0, n, key, val }),
+            1 => (any::<u16>(), 0u8..2).prop_map(|(n, key)| Op::RemoveProp { s: 0, n, key }),
+            2 => (any::<u16>(), 0u8..3).prop_map(|(n, label)| Op::AddLabel { s: 0, n, label }),
+            1 => (any::<u16>(), 0u8..3).prop_map(|(n, label)| Op::RemoveLabel { s: 0, n, label }),
+            2 => any::<u16>().prop_map(|n| Op::DeleteNode { s: 0, n }),
+            1 => (0u8..3, 0u8..4).prop_map(|(label, x)| Op::Merge { s: 0, label, x }),
+            1 => (0u8..c01::N_TRIPLES).prop_map(|t| Op::RdfInsert { s: 0, t }),
+            1 => (0u8..c01::N_TRIPLES).prop_map(|t| Op::RdfDelete { s: 0, t }),
+            2 => (0u8..N_READ_KINDS, any::<u16>(), 0u8..4).prop_map(|(kind, n, arg)| Op::Read { s: 0, kind, n, arg }),
+        ]
+        .boxed()
+    }
+}
+
+pub fn case_strategy(max_body: usize) -> impl Strategy<Value = TxCase> {
+    (
+        any::<bool>(),
+        proptest::collection::vec(setup_op(), 0..10),
+        prop_oneof![3 => Just(End::Commit), 4 => Just(End::Rollback), 2 => Just(End::FailedCommit), 2 => Just(End::DropSession)],
+        any::<bool>(),
+    )
+        .prop_flat_map(move |(create_only, setup, end, index_x)| {
+            proptest::collection::vec(body_op(create_only), 1..max_body).prop_map(move |body| TxCase {
+                setup: setup.clone(),
+                body,
+                end: end.clone(),
+                index_x,
+                create_only,
+            })
+        })
+}
+
+/// The whole observable state through session `si`; every mismatch outside a known-defect region is a failure.
+fn battery(w: &mut World, si: usize, known: &mut Vec<String>, strict: &mut u32) -> Result<(), Failure> {
+    let n_nodes = w.all_nodes.len().max(1);
+    let n_edges = w.all_edges.len().max(1);
+    let mut todo: Vec<(u8, u16, u8)> = Vec::new();
+    for kind in 0..N_READ_KINDS {
+        match kind {
+            0 | 13 => {
+                for l in 0..3u8 {
+                    todo.push((kind, 0, l));
+                }
+            }
+            5 => {
+                for v in 0..4u8 {
+                    todo.push((kind, 0, v));
+                }
+            }
+            6 | 7 => {
+                for i in 0..n_nodes {
+                    todo.push((kind, idx16(i, n_nodes), 0));
+                }
+            }
+            8 => {
+                for i in 0..n_edges {
+                    todo.push((kind, idx16(i, n_edges), 0));
+                }
+            }
+            9 | 10 | 11 => {
+                let live = w.view(si).nodes.len().max(1);
+                for i in 0..live {
+                    todo.push((kind, idx16(i, live), 0));
+                }
+            }
+            _ => todo.push((kind, 0, 0)),
+        }
+    }
+    for (kind, n, arg) in todo {
+        match w.read_verdict(si, kind, n, arg)? {
+            None => {}
+            Some(ReadVerdict::Strict { .. }) | Some(ReadVerdict::ConflictButEqual) => *strict += 1,
+            Some(ReadVerdict::Tolerated(class)) => known.push(format!("c02/known/{class}")),
+        }
+    }
+    // index path: find_nodes_by_property on "x" must equal the model (with or without an index)
+    let committed_view = w.view(si).clone();
+    let k = w.conflicts(si, true);
+    for v in 0..4i64 {
+        let got = guard("find_nodes_by_property", || w.db.find_nodes_by_property("x", &Value::Int64(v)))?;
+        let mut got: Vec<u64> = got.into_iter().map(|n| n.as_u64()).filter(|id| !k.contains_key(&Ent::Node(*id))).collect();
+        got.sort_unstable();
+        let exp: Vec<u64> = committed_view
+            .nodes
+            .iter()
+            .filter(|(id, n)| n.props.get("x") == Some(&v) && !k.contains_key(&Ent::Node(**id)))
+            .map(|(id, _)| *id)
+            .collect();
+        if w.cur_tx[si].is_none() && got != exp {
+            return fail(
+                "c02/index-lookup-mismatch",
+                format!("find_nodes_by_property(x, {v}) = {got:?}, model {exp:?} (entities in a known-defect region excluded: {k:?})"),
+            );
+        }
+    }
+    Ok(())
+}
+
+/// Inverse of `driver::pick`: a u16 that `pick` maps to index `i` of `len`.
+fn idx16(i: usize, len: usize) -> u16 {
+    (((i as u64) * 65536 + (len as u64) - 1) / (len as u64)).min(65535) as u16
+}
+
+pub fn run_case(c: &TxCase) -> CaseResult {
+    // session 0 runs T, session 1 does the setup (auto-commit), observers are added afterwards
+    let mut w = World::new(2, 0);
+    let mut known: Vec<String> = Vec::new();
+    let mut strict = 0u32;
+    let step = |w: &mut World, op: &Op, known: &mut Vec<String>| -> Result<(), Failure> {
+        match w.step(op) {
+            Ok(()) => Ok(()),
+            Err(f) if f.signature.starts_with("c01/known/") => {
+                known.push(f.signature.replacen("c01/", "c02/", 1));
+                Ok(())
+            }
+            Err(f) => Err(Failure { signature: f.signature.replacen("c01/", "c02/", 1), what: format!("{} (at {op:?})", f.what) }),
+        }
+    };
+    for op in &c.setup {
+        step(&mut w, op, &mut known)?;
+    }
+    if c.index_x {
+        guard("create_property_index", || w.db.create_property_index("x"))?;
+    }
+    // battery before (sanity of the serial baseline; must be strict)
+    w.sessions.push(w.db.session());
+    w.cur_tx.push(None);
+    w.last_read.push(None);
+    let obs = w.sessions.len() - 1;
+    battery(&mut w, obs, &mut known, &mut strict)?;
+
+    // T
+    step(&mut w, &Op::Begin { s: 0, ser: false }, &mut known)?;
+    let t = w.cur_tx[0].expect("transaction open");
+    let tm = w.db.verif_tx_manager().clone();
+    let t_txid = tm.last_assigned_tx_id();
+    for op in &c.body {
+        step(&mut w, op, &mut known)?;
+    }
+    let n_writes = w.txs[t].writes.len();
+    let kinds: std::collections::HashSet<std::mem::Discriminant<c01::WOp>> = w.txs[t].writes.iter().map(std::mem::discriminant).collect();
+    let before = w.committed.clone();
+    let mut after = before.clone();
+    for wr in &w.txs[t].writes {
+        after.apply(wr);
+    }
+    match c.end {
+        End::Commit => step(&mut w, &Op::Commit { s: 0 }, &mut known)?,
+        End::Rollback => step(&mut w, &Op::Rollback { s: 0 }, &mut known)?,
+        End::FailedCommit => {
+            // a foreign transaction writes entity 0 and commits first; T registers the same write
+            let Some(t_txid) = t_txid else { return fail("c02/no-tx-id", "transaction manager reports no assigned id") };
+            let victim = NodeId::new(0);
+            let u = tm.begin();
+            let r = guard("tm", || tm.record_write(u, victim).and_then(|()| tm.commit(u).map(|_| ())))?;
+            if let Err(e) = r {
+                return fail("c02/foreign-commit-refused", format!("{e}"));
+            }
+            w.epoch += 1;
+            if let Err(e) = guard("tm", || tm.record_write(t_txid, victim))? {
+                return fail("c02/record-write-refused", format!("{e}"));
+            }
+            w.time += 1;
+            let sess = &mut w.sessions[0];
+            match guard("commit", || sess.commit())? {
+                Ok(()) => return fail("c02/conflicting-commit-accepted", "commit succeeded although a conflicting writer committed first"),
+                Err(_) => {}
+            }
+            w.txs[t].status = TxStatus::RolledBack(w.time);
+            w.cur_tx[0] = None;
+        }
+        End::DropSession => {
+            w.time += 1;
+            let fresh = w.db.session();
+            let old = std::mem::replace(&mut w.sessions[0], fresh);
+            guard("drop session", move || drop(old))?;
+            w.txs[t].status = TxStatus::RolledBack(w.time);
+            w.cur_tx[0] = None;
+        }
+    }
+    let expected_state = if matches!(c.end, End::Commit) { &after } else { &before };
+    if &w.committed != expected_state {
+        return fail("c02/model-inconsistent", "internal: model state after the transaction is not the expected one");
+    }
+    // fresh observer, outside a transaction …
+    w.sessions.push(w.db.session());
+    w.cur_tx.push(None);
+    w.last_read.push(None);
+    let o1 = w.sessions.len() - 1;
+    battery(&mut w, o1, &mut known, &mut strict)?;
+    // … and inside a transaction begun afterwards
+    w.sessions.push(w.db.session());
+    w.cur_tx.push(None);
+    w.last_read.push(None);
+    let o2 = w.sessions.len() - 1;
+    step(&mut w, &Op::Begin { s: o2 as u8, ser: false }, &mut known)?;
+    battery(&mut w, o2, &mut known, &mut strict)?;
+    step(&mut w, &Op::Rollback { s: o2 as u8 }, &mut known)?;
+
+    let nontrivial = n_writes >= 2 && kinds.len() >= 2 && before != after;
+    let class = format!(
+        "{}{}{}",
+        match c.end {
+            End::Commit => "commit",
+            End::Rollback => "rollback",
+            End::FailedCommit => "failed-commit",
+            End::DropSession => "drop-session",
+        },
+        if c.create_only { "/create-only" } else { "/mixed" },
+        if known.is_empty() { "" } else { "+defect-region" }
+    );
+    ok_with_known(nontrivial, class, hash_dbg(c), known)
+}
 
 pub fn run(r: &mut Run) {
-    r.inconclusive("C02: check not built yet");
+    r.level = "exploration";
+    r.rule = "one generated transaction (1-15 mutations: create node via API/GQL/Cypher, create edge, SET/REMOVE property, add/remove label, \
+              DETACH DELETE, MERGE, SPARQL INSERT/DELETE DATA, own reads) over a generated starting graph (optionally with a property index), \
+              ended by commit / rollback / refused commit (conflict forced through the transaction manager) / dropping the session; the full \
+              observable-state battery (15 read kinds x every label / id / node, index lookups, SPARQL) by fresh sessions outside and inside a \
+              later transaction against the model state before (rollback, refusal, drop) or after (commit) the transaction; non-trivial = the \
+              transaction has >= 2 writes of >= 2 kinds and changes the state; distinct by hash of the case."
+        .into();
+    r.assumptions.push("reuses the C01 reference model and tolerance classes; see C01 assumptions".into());
+    r.assumptions.push("the refused commit is produced by registering writes directly with the TransactionManager (hook H5), because sessions never register their writes".into());
+    let max_body = if r.is_thorough() { 30 } else { 15 };
+    r.subcheck("transaction", r.cases(6000, 300_000), move || case_strategy(max_body), run_case);
 }
